@@ -247,7 +247,7 @@ pub fn property() -> Property {
         parts: vec![Box::new(GenPart {
             name: "descriptions",
             rule: "see property rule",
-            cases: (1_800_000, 5_000_000),
+            cases: (1_800_000, 30_000_000),
             fuzz_decode: Some(crate::fuzzdec::c20_case),
             strategy,
             check,
